@@ -179,13 +179,15 @@ def gen_seqs(rng, n):
         invs = []
         for _ in range(rng.randint(1, 8)):
             t += rng.choice([0, 1, 60, H, 24 * H, 71 * H, 72 * H - 1, 72 * H, 72 * H + 1, 100 * H, -5])
-            f = rng.choice(vers[:-1] + ["!", "v1.1.0\n", " 2.0.0", "1.0.1\r\n"])   # a tag may arrive with white space around it
+            f = rng.choice(vers[:-1] + ["!", "v1.1.0\n", " 2.0.0", "1.0.1\r\n", "v9.9.9\n0", "2.0.0\r\n1700000000\n", "1.1.0\n\n2.0.0"])   # a tag may arrive with white space around it
             r = rng.random()
             mode = 1 if r < 0.12 else (2 if r < 0.22 else (3 if r < 0.28 else (4 if r < 0.34 else 0)))   # 1 disabled by environment, 2/3/4 cache cannot be written
             invs.append("%d %d %s %s" % (t, mode, hx(cur), "!" if f == "!" else hx(f)))
         cases.append("seq %s %s" % (disk, " ".join(invs)))
     # a cache that holds a newer release and cannot be rewritten, three runs within seconds (then writable again)
     t = 1700000000
+    # a tag with a line break inside: never parsable as a whole, must not come back from the cache as its first line
+    cases.insert(0, "seq none " + " ".join("%d 0 %s %s" % (t + k * 71 * H, hx("1.0.0"), hx("v9.9.9\n0")) for k in range(3)))
     for mode in (2, 3, 4):
         cases.insert(0, "seq %d:%s:0 " % (t, hx("v2.0.0")) + " ".join("%d %d %s %s" % (t + k, m, hx("1.0.0"), hx("v2.0.0"))
                                                                    for k, m in enumerate([mode, mode, mode, 0, 0])))
